@@ -829,6 +829,18 @@ func nonNilErrD(v ssa.Value, at ssa.Instruction, d int) bool {
 		if f := x.Call.StaticCallee(); f != nil && errCtors[f.String()] {
 			return true
 		}
+		// an error-building helper of the module: each of its exits returns an error that is never nil
+		if f := x.Call.StaticCallee(); f != nil && inModule(f) && f.Blocks != nil && f.Signature.Results().Len() == 1 && isErrType(f.Signature.Results().At(0).Type()) {
+			all := true
+			for _, r := range returnsOf(f) {
+				if !nonNilErrD(returnedValue(r, 0), r, d+2) {
+					all = false
+				}
+			}
+			if all && len(returnsOf(f)) > 0 {
+				return true
+			}
+		}
 	case *ssa.MakeInterface:
 		if _, ok := x.X.Type().Underlying().(*types.Pointer); ok {
 			if _, isAlloc := x.X.(*ssa.Alloc); isAlloc {
